@@ -428,6 +428,10 @@ func execSet[E any](c setCase, se setElem[E]) (res core.Result) {
 		case "MakeWithCollator":
 			set = S.MakeWithCollator(collator)
 		case "MakeFromArray":
+			if len(c.Init) == 0 && len(c.Ops)%2 == 0 {
+				set = S.MakeFromArray(nil) // an empty Go array comes as an allocated empty one or as nil, in turn
+				break
+			}
 			set = S.MakeFromArray(vals(c.Init))
 		case "MakeFromSequence":
 			set = S.MakeFromSequence(col.List[E](n).MakeFromArray(vals(c.Init)))
